@@ -210,11 +210,18 @@ def subtotal_rule_dependence(ctx: Ctx):
             ctx.ob("subtotal-pruning.dependence", where, f"reads prune flag, element ids, emptiness from {labels}", "... from ['U']", labels == ["U"], "emptiness of the opposing vectors is decided from unweighted counts")
 
 
-def _hidden_cond(cond: ast.expr) -> bool:
+def _hidden_cond(cond: ast.expr, targets=()) -> Optional[bool]:
+    """`<the comprehension's own element> not in <a hidden set>` -> True; a membership filter on the element against a set
+    this analysis cannot name -> None; anything else -> False.  The element may carry any name."""
     from ..exprdiff import canon
 
-    t = u(canon(cond))
-    return t in ("idx not in hidden_idxs", "idx not in self._hidden_idxs") or (t.startswith("idx not in ") and "hidden" in t)
+    c = canon(cond)
+    if not (isinstance(c, ast.Compare) and len(c.ops) == 1 and isinstance(c.ops[0], ast.NotIn)):
+        return False
+    left_names = {n.id for n in ast.walk(c.left) if isinstance(n, ast.Name)}
+    if targets and not (left_names & set(targets)):
+        return False
+    return True if "hidden" in u(c.comparators[0]) else None
 
 
 def _unfiltered_sources(e: ast.expr, out: List[str]) -> Optional[bool]:
@@ -222,8 +229,11 @@ def _unfiltered_sources(e: ast.expr, out: List[str]) -> Optional[bool]:
     `idx not in hidden` filter?  -> True (all filtered) / False (an unfiltered source, appended to `out`) / None
     (an expression form this analysis does not understand)."""
     if isinstance(e, (ast.ListComp, ast.GeneratorExp, ast.SetComp, ast.DictComp)):
-        if any(_hidden_cond(c) for g in e.generators for c in g.ifs):
+        verdicts = [_hidden_cond(c, {n.id for n in ast.walk(g.target) if isinstance(n, ast.Name)}) for g in e.generators for c in g.ifs]
+        if any(v is True for v in verdicts):
             return True
+        if any(v is None for v in verdicts):
+            return None
         if len(e.generators) != 1:
             return None
         return _unfiltered_sources(e.generators[0].iter, out)
